@@ -462,6 +462,27 @@ def load_findings():
     return json.load(open(os.path.join(VERIF, "known_findings.json")))
 
 
+def current_structure(fnindex):
+    """{module: {function key: number of loops}} of the repository modules (not the spec library)"""
+    st = {}
+    for fi in fnindex:
+        if fi.get("spec_lib") or fi["fn"].startswith("verif_pec::"):
+            continue
+        mod = fi["fn"].split("::")[0]
+        st.setdefault(mod, {})[fi["fn"]] = fi.get("loops", 0)
+    return st
+
+
+def drifted_modules(fnindex):
+    """modules whose set of functions / loops differs from the one the contracts were written for (contracts/structure.json)"""
+    try:
+        base = json.load(open(os.path.join(VERIF, "contracts/structure.json")))
+    except Exception:
+        return set()
+    cur = current_structure(fnindex)
+    return set(m for m in set(base) | set(cur) if base.get(m) != cur.get(m))
+
+
 def norm_fn(verus_name):
     """lib::smbus::MCTPSMBusContext::decode_packet -> smbus::MCTPSMBusContext::decode_packet"""
     n = verus_name
@@ -675,6 +696,18 @@ def decide(pid, tier, seed):
         cross, cex0 = vsearch.crosscheck(pid, seed, tier)
         if cex0:
             violations.append({"kind": "search", "obligation": "(all obligations discharged; differential search found a failing input)", "detail": cex0.get("detail"), "cex": cex0})
+    # ---- structural-drift rule (DESIGN.md §6): in a module whose set of functions/loops changed, a failed obligation
+    # means "the contracts no longer fit", not yet "the property is broken": it needs a failing input to become an alarm
+    drift = drifted_modules(res["fnindex"])
+    soft = [ob for ob in failed if (ob.get("fn") or "").split("::")[0] in drift]
+    hard = [ob for ob in failed if ob not in soft]
+    if soft and not hard and not violations:
+        import vsearch
+        cex = vsearch.find_counterexample(pid, [], seed, tier)
+        if not (cex and cex.get("reproduced")):
+            raise ToolProblem("the structure of module(s) %s changed (functions/loops differ from contracts/structure.json); %d obligation(s) could not be re-established (%s) and no failing input was found - contracts need re-anchoring"
+                              % (", ".join(sorted(drift)), len(soft), "; ".join(ob_name(o) for o in soft[:3])))
+        violations.append({"kind": "search", "obligation": "(structure of %s changed; failing input found)" % ", ".join(sorted(drift)), "detail": cex.get("detail"), "cex": cex})
     for ob in failed:
         violations.append({"kind": "verus", "obligation": ob_name(ob), "message": ob["message"], "where": ob.get("where"), "detail": ob.get("detail"), "src": ob.get("src_text")})
     if missing:
@@ -837,6 +870,15 @@ def main(argv):
     if args[0] == "replay":
         import vsearch
         return vsearch.replay_file(args[1])
+    if args[0] == "structure":
+        res = splice_and_verify()
+        st = current_structure(res["fnindex"])
+        if len(args) > 1 and args[1] == "--write":
+            json.dump(st, open(os.path.join(VERIF, "contracts/structure.json"), "w"), indent=1, sort_keys=True)
+            print("written contracts/structure.json:", sum(len(v) for v in st.values()), "functions")
+        else:
+            print("drifted modules:", sorted(drifted_modules(res["fnindex"])))
+        return 0
     if args[0] == "obligations":
         res = splice_and_verify()
         print(json.dumps({"verified": res["verified"], "errors": res["errors"], "failed": [ob_name(o) for o in res["failed"]], "rlimit": res["rlimit"],
